@@ -4,12 +4,14 @@
    (receiver class x mutator x index x receiver length x operand class incl. sub/superclass pairs x operand length 0,1,2).
    Lists and finite enumerations only: every theorem is axiom-free.
 
+   FULL statement (constructor): ctor_obj r x = Ok d -> all_member r d          -- proved, no guard (C07_ctor_obj_sound), since the
+       fixes ac96bee (SO3(SE3 object) rejected) and 5c063cb (conversion keeps one element per value).
    FULL statement (mutators):   all_member r d -> mutate_impl r d m x = Ok d' -> all_member r d'
-   FULL statement (constructor): ctor_obj r x = Ok d -> all_member r d
-   Both are false of the code as it is (four root causes, all confirmed on the implementation); each is kept here with a
-   _refuted witness and proved under a guard that excludes exactly the refuted region.  What the exact-type guard
-   type(self) == type(x) buys is proved separately: every operand of another class -- subclass, superclass, unrelated,
-   bare ndarray -- is rejected by every mutator, and weakening the guard to isinstance breaks the invariant. *)
+       -- proved for x[i] = v with an integer index, append, insert, extend (fix b1d6482 closed the empty-operand hole).
+       ONE hole is left: x[lo:hi] = v with a slice index spreads the rows of the value (_refuted witness; the _partial's guard
+       excludes exactly the slice index).
+   What the exact-type guard type(self) == type(x) buys is proved separately: every operand of another class -- subclass,
+   superclass, unrelated, bare ndarray -- is rejected by every mutator, and weakening the guard to isinstance breaks the invariant. *)
 From Coq Require Import List Bool Arith Lia.
 Import ListNotations.
 From SM Require Import Model.C07_Ctor.
@@ -52,21 +54,7 @@ Qed.
 Print Assumptions C07_mut_isinstance_guard_refuted.
 
 (* ------------------------------------------------------------------ mutators preserve membership *)
-(* the guard of the _partial: an empty operand given to x[i] = v / append / insert stores `[]` (v.A of an empty object is its
-   empty list of values), and a slice index spreads the rows of the single value; extend and slice-deletion are fine *)
-Definition mguard (m : mutator) (x : operand) : bool :=
-  match m with
-  | SetInt _ | Append | Insert _ => negb (olen x =? 0)
-  | SetSlice _ _ => olen x =? 0
-  | Extend => true end.
-Theorem C07_mut_preserves_refuted_empty_operand : exists r d m x d',
-  all_member r d /\ mutate_impl r d m x = Ok d' /\ ~ all_member r d'.
-Proof.
-  exists oSO3, [V oSO3], Append, (Opd oSO3 0), [V oSO3; Junk]. repeat split.
-  - repeat constructor.
-  - intros H. inversion H as [|? ? _ H1]; subst. inversion H1; subst. discriminate.
-Qed.
-Print Assumptions C07_mut_preserves_refuted_empty_operand.
+Definition mguard (m : mutator) : bool := match m with SetSlice _ _ => false | _ => true end.
 Theorem C07_mut_preserves_refuted_slice_index : exists r d m x d',
   all_member r d /\ mutate_impl r d m x = Ok d' /\ ~ all_member r d' /\ length d' = 4.
 Proof.
@@ -75,79 +63,70 @@ Proof.
   - intros H. inversion H; subst. discriminate.
 Qed.
 Print Assumptions C07_mut_preserves_refuted_slice_index.
+(* x[i] = v (integer index), append, insert, extend: the FULL statement *)
 Theorem C07_mut_preserves_partial : forall r d m x d',
-  mguard m x = true -> all_member r d -> mutate_impl r d m x = Ok d' -> all_member r d'.
+  mguard m = true -> all_member r d -> mutate_impl r d m x = Ok d' -> all_member r d'.
 Proof.
   intros r d m x d' Hg Hd H. unfold mutate_impl, mutate in H.
   destruct (exact r (ocl x)) eqn:Ex; cbn [negb] in H; [|discriminate].
   pose proof (exact_member _ _ Ex) as Hm.
-  assert (HA : olen x =? 0 = false -> (1 <? olen x) = false -> member r (opd_A x) = true).
-  { intros H0 H1. unfold opd_A. destruct (olen x) as [|[|k]]; try discriminate. exact Hm. }
-  destruct m; cbn [mguard] in Hg.
-  - apply negb_true_iff in Hg. destruct (1 <? olen x) eqn:E1; [discriminate|]. destruct (pos <? length d); [|discriminate].
-    injection H as <-. apply all_member_replace; [apply HA; auto | exact Hd].
-  - destruct (1 <? olen x) eqn:E1; [discriminate|]. injection H as <-. apply Nat.eqb_eq in Hg. rewrite Hg. cbn [Nat.eqb app].
-    apply all_member_app; [apply all_member_firstn; auto|]. apply all_member_skipn; auto.
-  - apply negb_true_iff in Hg. destruct (1 <? olen x) eqn:E1; [discriminate|]. injection H as <-.
-    apply all_member_app; [exact Hd|]. constructor; [apply HA; auto | constructor].
-  - apply negb_true_iff in Hg. destruct (1 <? olen x) eqn:E1; [discriminate|]. injection H as <-.
-    apply all_member_app; [apply all_member_firstn; exact Hd|]. constructor; [apply HA; auto | apply all_member_skipn; exact Hd].
+  assert (HA : (olen x =? 1) = true -> member r (opd_A x) = true).
+  { intros H1. unfold opd_A. rewrite H1. exact Hm. }
+  destruct m; cbn [mguard] in Hg; try discriminate.
+  - destruct (olen x =? 1) eqn:E1; cbn [negb] in H; [|discriminate]. destruct (pos <? length d); [|discriminate].
+    injection H as <-. apply all_member_replace; [apply HA; reflexivity | exact Hd].
+  - destruct (olen x =? 1) eqn:E1; cbn [negb] in H; [|discriminate]. injection H as <-.
+    apply all_member_app; [exact Hd|]. constructor; [apply HA; reflexivity | constructor].
+  - destruct (olen x =? 1) eqn:E1; cbn [negb] in H; [|discriminate]. injection H as <-.
+    apply all_member_app; [apply all_member_firstn; exact Hd|]. constructor; [apply HA; reflexivity | apply all_member_skipn; exact Hd].
   - injection H as <-. apply all_member_app; auto. apply all_member_repeat; auto.
 Qed.
 Print Assumptions C07_mut_preserves_partial.
 Example C07_mut_preserves_partial_nonvacuous :
-  mguard Append (Opd oSE3 1) = true /\ (exists d', mutate_impl oSE3 [V oSE3] Append (Opd oSE3 1) = Ok d') /\
-  mguard Extend (Opd oUQ 2) = true /\ (exists d', mutate_impl oUQ [V oUQ] Extend (Opd oUQ 2) = Ok d') /\
-  mguard (SetInt 1) (Opd oTw3 1) = true /\ (exists d', mutate_impl oTw3 [V oTw3; V oTw3] (SetInt 1) (Opd oTw3 1) = Ok d').
+  (exists d', mutate_impl oSE3 [V oSE3] Append (Opd oSE3 1) = Ok d') /\
+  (exists d', mutate_impl oUQ [V oUQ] Extend (Opd oUQ 2) = Ok d') /\
+  (exists d', mutate_impl oTw3 [V oTw3; V oTw3] (SetInt 1) (Opd oTw3 1) = Ok d').
 Proof. repeat split; eexists; reflexivity. Qed.
 (* extend is sound at full strength, for operands of any length *)
 Theorem C07_mut_extend_preserves : forall r d x d', all_member r d -> mutate_impl r d Extend x = Ok d' -> all_member r d'.
 Proof. intros r d x d' Hd H. apply (C07_mut_preserves_partial r d Extend x d'); auto. Qed.
 Print Assumptions C07_mut_extend_preserves.
-(* multi-valued operands are rejected by x[i] = v, append, insert *)
-Theorem C07_mut_multivalued_rejected : forall r d m x, m <> Extend -> 1 < olen x -> exists e, mutate_impl r d m x = Err e.
+(* operands that do not hold exactly one value -- empty or multi-valued -- are rejected by x[i] = v, x[lo:hi] = v, append, insert *)
+Theorem C07_mut_not_single_rejected : forall r d m x, m <> Extend -> olen x <> 1 -> exists e, mutate_impl r d m x = Err e.
 Proof.
   intros r d m x Hm Hl. unfold mutate_impl, mutate. destruct (negb (exact r (ocl x))); [eexists; reflexivity|].
-  apply Nat.ltb_lt in Hl. rewrite Hl. destruct m; try (eexists; reflexivity). contradiction.
+  apply Nat.eqb_neq in Hl. rewrite Hl. destruct m; try (eexists; reflexivity). contradiction.
 Qed.
-Print Assumptions C07_mut_multivalued_rejected.
+Print Assumptions C07_mut_not_single_rejected.
 
 (* ------------------------------------------------------------------ constructor given an object *)
-Theorem C07_ctor_obj_refuted_subclass : exists r x d, ctor_obj r x = Ok d /\ ~ all_member r d.
+(* FULL statement, no guard (before ac96bee / 5c063cb: SO3(SE3 object) held 4x4 matrices, Twist3(SE3 object of length <> 1) a list) *)
+Theorem C07_ctor_obj_sound : forall r x d, ctor_obj r x = Ok d -> all_member r d.
 Proof.
-  exists oSO3, (Opd oSE3 1), [V oSE3]. split; [reflexivity|]. intros H. inversion H; subst. discriminate.
-Qed.
-Print Assumptions C07_ctor_obj_refuted_subclass.
-Theorem C07_ctor_obj_refuted_convert_multi : exists r x d, ctor_obj r x = Ok d /\ ~ all_member r d /\ length d = 1.
-Proof.
-  exists oTw3, (Opd oSE3 2), [Junk]. repeat split. intros H. inversion H; subst. discriminate.
-Qed.
-Print Assumptions C07_ctor_obj_refuted_convert_multi.
-(* guard: not (a strict subclass instance given to SO3 / SO2), not (a conversion of an operand whose length is not 1) *)
-Definition oguard (r : ocls) (x : operand) : bool :=
-  negb (subclass_of (ocl x) r && negb (exact r (ocl x)) && negb (ocls_eqb r oQ)) && negb (converts r (ocl x) && negb (olen x =? 1)).
-Theorem C07_ctor_obj_partial : forall r x d, oguard r x = true -> ctor_obj r x = Ok d -> all_member r d.
-Proof.
-  intros r [o n] d Hg H. unfold ctor_obj, oguard in *. cbn [ocl olen] in *.
-  destruct (subclass_of o r) eqn:Es.
+  intros r [o n] d H. unfold ctor_obj in H. cbn [ocl olen] in *.
+  destruct (subclass_of o r && same_shape o r) eqn:Es.
   - injection H as <-. apply all_member_repeat. destruct r, o; cbn in *; try discriminate; reflexivity.
   - destruct (converts r o) eqn:Ec.
-    + injection H as <-. cbn in Hg. destruct (n =? 1); [|discriminate]. constructor; [|constructor].
-      destruct r, o; cbn in *; try discriminate; reflexivity.
+    + injection H as <-. apply all_member_repeat. destruct r, o; cbn in *; try discriminate; reflexivity.
     + destruct r; try discriminate. destruct o; try (destruct (n =? 0); discriminate); injection H as <-; apply all_member_repeat; reflexivity.
 Qed.
-Print Assumptions C07_ctor_obj_partial.
-Example C07_ctor_obj_partial_nonvacuous :
-  oguard oSE3 (Opd oSE3 2) = true /\ (exists d, ctor_obj oSE3 (Opd oSE3 2) = Ok d) /\
-  oguard oUQ (Opd oSO3 2) = true /\ (exists d, ctor_obj oUQ (Opd oSO3 2) = Ok d) /\
-  oguard oTw3 (Opd oSE3 1) = true /\ (exists d, ctor_obj oTw3 (Opd oSE3 1) = Ok d).
-Proof. repeat split; eexists; reflexivity. Qed.
-(* objects of unrelated classes, and of a SUPERclass, are rejected by every constructor of the property's classes *)
-Theorem C07_ctor_obj_rejects : forall r x, r <> oQ -> r <> oArr -> subclass_of (ocl x) r = false -> converts r (ocl x) = false ->
+Print Assumptions C07_ctor_obj_sound.
+Example C07_ctor_obj_sound_nonvacuous :
+  (exists d, ctor_obj oSE3 (Opd oSE3 2) = Ok d) /\ (exists d, ctor_obj oUQ (Opd oSO3 2) = Ok d) /\
+  (exists d, ctor_obj oTw3 (Opd oSE3 2) = Ok d /\ length d = 2).
+Proof. repeat split; eexists; try split; reflexivity. Qed.
+(* the former witnesses are rejected / converted element by element *)
+Theorem C07_ctor_obj_subclass_rejected : forall n, ctor_obj oSO3 (Opd oSE3 n) = Err ValueError /\ ctor_obj oSO2 (Opd oSE2 n) = Err ValueError.
+Proof. intros n. split; reflexivity. Qed.
+Print Assumptions C07_ctor_obj_subclass_rejected.
+(* objects of unrelated classes, of a SUPERclass and of a SUBclass with another value shape are rejected by every constructor of the property's classes *)
+Theorem C07_ctor_obj_rejects : forall r x, r <> oQ -> r <> oArr -> exact r (ocl x) = false -> converts r (ocl x) = false ->
   (r = oUQ -> ocl x <> oSO3 /\ ocl x <> oSE3) -> exists e, ctor_obj r x = Err e.
 Proof.
-  intros r [o n] Hq Ha Hs Hc Hu. unfold ctor_obj. cbn [ocl olen] in *. rewrite Hs, Hc.
-  destruct r; try (eexists; reflexivity); try contradiction.
+  intros r [o n] Hq Ha Hs Hc Hu. unfold ctor_obj. cbn [ocl olen] in *.
+  assert (E : subclass_of o r && same_shape o r = false).
+  { destruct r, o; cbn in *; try reflexivity; try discriminate; contradiction. }
+  rewrite E, Hc. destruct r; try (eexists; reflexivity); try contradiction.
   destruct (Hu eq_refl) as [H1 H2]. destruct o; try contradiction; destruct (n =? 0); eexists; reflexivity.
 Qed.
 Print Assumptions C07_ctor_obj_rejects.
